@@ -92,7 +92,11 @@ func init() {
 				`set_account_meta(@a, "k", [USD 7])`,
 				`set_account_meta(@a, "j", "text")`,
 				`set_account_meta(@a, "k", 10%)`,
+				// a second asset on the same accounts
+				"send [EUR *] (\n  source = @a\n  destination = @b\n)",
+				"vars_eur",
 			}
+			stm[len(stm)-1] = "save [EUR 5] from @b"
 			var cases []Case
 			// a variable used inside + / - and again by a later statement (nothing but balances may carry over)
 			infix := []string{
